@@ -427,6 +427,12 @@ def _case(arg) -> Dict[str, Any]:
                 h = host[len(host) // 2]
                 for _ in range(2):
                     evs.append({"ph": "X", "cat": "cpu_op", "name": "aten::as_strided", "pid": h["pid"], "tid": h["tid"], "ts": h["ts"] + 1, "dur": 0})
+    if seed % 6 == 5:
+        # older exporters label device rows with text ("stream 7") instead of a number: process / thread decode to the file's values, whatever their type
+        for evs in per_rank.values():
+            for e in evs:
+                if e.get("cat") in ("kernel", "gpu_memcpy", "gpu_memset") and isinstance(e.get("tid"), int):
+                    e["tid"] = f"stream {e['tid']}"
     if seed % 7 == 3:
         # a host-only rank none of whose events carries an `args` object (no launches, no metadata entries): stream / correlation must decode to their defaults
         last = max(per_rank)
